@@ -58,6 +58,8 @@ STUBS = ['PPSocket.recv_into (in-memory stream; returns min(requested, '
          'opaque function of the packed bytes', 'int(bytes) exact model',
          'slimta.logging -> no-ops']
 ASSUMPTIONS = ['recv_into never returns more than requested',
+               'the documented module constants unknown_pp_* and invalid_pp_* '
+               'are set to different values',
                'reference decoder follows proxy-protocol.txt: unassigned '
                'v2 command / family+protocol values and non-digit port '
                'characters are malformed']
@@ -66,7 +68,10 @@ SAMPLE_P = 0.02
 MAX_DECISIONS = 60000
 
 SIG = b'\r\n\r\n\x00\r\nQUIT\n'
-INVALID = (None, None)
+# the two documented module constants are given different values, so that
+# "accepted as UNKNOWN" and "invalid" can be told apart
+INVALID = ('invalid-src', 1)
+UNKNOWN = ('unknown-src', 2)
 
 V1_LINES = [
     b'PROXY TCP4 1.2.3.4 5.6.7.8 80 25\r\n',
@@ -136,6 +141,11 @@ def cells(tier):
 
 def setup(mode):
     quiet_logging()
+    from slimta.util import proxyproto as pp
+    pp.invalid_pp_source_address = INVALID
+    pp.invalid_pp_dest_address = ('invalid-dst', 1)
+    pp.unknown_pp_source_address = UNKNOWN
+    pp.unknown_pp_dest_address = ('unknown-dst', 2)
 
 
 # ----------------------------------------------------------------- stubs
@@ -242,7 +252,13 @@ def ref_v2(hdr, body):
     fam = b13 // 16
     proto = b13 % 16
     if d(fam == 0):
-        return ('handled', INVALID, 16 + ln)
+        if d(proto == 0):
+            return ('handled', UNKNOWN, 16 + ln)
+        if d(proto <= 2):
+            # AF_UNSPEC with STREAM / DGRAM: not in the table of the
+            # specification; treating it as UNSPEC is tolerated
+            return ('either', UNKNOWN, 16 + ln)
+        return ('invalid', None, None)
     if d(fam > 3):
         return ('invalid', None, None)
     if not d(Or(proto == 1, proto == 2)):
@@ -368,7 +384,7 @@ def ref_v1(stream):
         return ('invalid', None, None)
     parts = _split(line[6:-2], 32)
     if d(parts[0] == b'UNKNOWN'):
-        return ('handled', INVALID, end)
+        return ('handled', UNKNOWN, end)
     if d(parts[0] == b'TCP4'):
         fam = socket.AF_INET
     elif d(parts[0] == b'TCP6'):
